@@ -340,7 +340,7 @@ Record rexp := mkRexp {
 
 Definition rexp_empty := mkRexp 0 [] [] [].
 Definition rexp_app (a b : rexp) : rexp :=
-  mkRexp (if re_err a =? 0 then re_err b else re_err a) (re_names a ++ re_names b) (re_deliv a ++ re_deliv b) (re_subs a ++ re_subs b).
+  mkRexp (if (re_err a =? 0) || ((re_err a =? 5) && negb (re_err b =? 0)) then re_err b else re_err a) (re_names a ++ re_names b) (re_deliv a ++ re_deliv b) (re_subs a ++ re_subs b).
 
 Definition opaque_text := [91].
 
@@ -353,8 +353,8 @@ Definition kitex_reread (o : hopts) (f : fdesc) (v : tval) : bool :=
   match v with VList _ [] | VSet _ [] => true | _ => false end &&
   match f_anns f with a :: _ :: _ => match resp_ann a opaque_text with RFail => true | _ => false end | _ => false end.
 
-Definition resp_one (o : hopts) (absent : bool) (f : fdesc) (v : tval) : rexp :=
-  if kitex_reread o f v then mkRexp 5 [] [] [] else
+Definition resp_one (q : bool) (o : hopts) (absent : bool) (f : fdesc) (v : tval) : rexp :=
+  if q && kitex_reread o f v then mkRexp 5 [] [] [] else
   let t := enc_text o (f_ty f) v in
   match resp_field o f (match t with Some x => x | None => opaque_text end) with
   | RODelivered k key _ => mkRexp 0 [] [(k, key, if k =? K_HTTP_CODE then option_map fmt_int (match t with Some x => go_parse_int64 x | None => None end) else t)] []
@@ -364,11 +364,12 @@ Definition resp_one (o : hopts) (absent : bool) (f : fdesc) (v : tval) : rexp :=
   | ROError => mkRexp 3 [] [] []
   end.
 
-Definition struct_names (fs : list fdesc) (vals : list (Z * tval)) (o : hopts) : list (list Z) :=
+Definition struct_names (q : bool) (fs : list fdesc) (vals : list (Z * tval)) (o : hopts) : list (list Z) :=
   flat_map (fun p => match find (fun f => f_id f =? fst p) fs with Some f => [f_name f] | None => [] end) vals ++
   flat_map (fun f => if existsb (fun p => fst p =? f_id f) vals then [] else
                      if ((f_req f =? R_REQUIRED) && o_wr o) || ((f_req f =? R_DEFAULT) && o_wd o) then
-                       (match resp_field o f (match enc_text o (f_ty f) (zero_of (f_ty f)) with Some x => x | None => opaque_text end) with
+                       (if negb q then [f_name f] else
+                        match resp_field o f (match enc_text o (f_ty f) (zero_of (f_ty f)) with Some x => x | None => opaque_text end) with
                         | ROSwallowed | RODelivered _ _ _ => []
                         | _ => [f_name f]
                         end)
@@ -379,33 +380,34 @@ Definition struct_names (fs : list fdesc) (vals : list (Z * tval)) (o : hopts) :
    field to writeHttpValue although the response is nil there (nil-pointer panic) *)
 Definition first_nz (a b : Z) : Z := if a =? 0 then b else a.
 
-Fixpoint plain_chk (fuel : nat) (o : hopts) (t : tdesc) (v : tval) : Z :=
+Fixpoint plain_chk (q : bool) (fuel : nat) (o : hopts) (t : tdesc) (v : tval) : Z :=
   match fuel with
   | O => 0
   | S n =>
     match t, v with
     | TStruct fs, VStruct vals =>
       first_nz
-        (fold_left (fun acc p => first_nz acc (match find (fun f => f_id f =? fst p) fs with Some f => plain_chk n o (f_ty f) (snd p) | None => 0 end)) vals 0)
+        (fold_left (fun acc p => first_nz acc (match find (fun f => f_id f =? fst p) fs with Some f => plain_chk q n o (f_ty f) (snd p) | None => 0 end)) vals 0)
         (fold_left (fun acc f =>
            first_nz acc
              (if existsb (fun p => fst p =? f_id f) vals then 0
               else if f_req f =? R_OPTIONAL then 0
               else if (f_req f =? R_REQUIRED) && negb (o_wr o) then 1
               else if (f_req f =? R_DEFAULT) && negb (o_wd o) then 0
+              else if negb q then 0      (* specification: below the reach of the response nothing is mapped, the member goes to the body *)
               else match resp_field o f (match enc_text o (f_ty f) (zero_of (f_ty f)) with Some x => x | None => opaque_text end) with
                    | RODelivered _ _ _ => if nonempty (f_anns f) then 4 else 0    (* the mapping calls a method of the nil response *)
                    | ROError => 3
                    | _ => 0
                    end)) (sort_by_id fs) 0)
-    | TList e, VList _ es | TSet e, VSet _ es => fold_left (fun acc x => first_nz acc (plain_chk n o e x)) es 0
-    | TMap _ e, VMap _ _ es => fold_left (fun acc x => first_nz acc (plain_chk n o e (snd x))) es 0
+    | TList e, VList _ es | TSet e, VSet _ es => fold_left (fun acc x => first_nz acc (plain_chk q n o e x)) es 0
+    | TMap _ e, VMap _ _ es => fold_left (fun acc x => first_nz acc (plain_chk q n o e (snd x))) es 0
     | _, _ => 0
     end
   end.
 
 (* lvl = number of struct levels BELOW this one that the response setter still reaches (1 at the root: its direct struct members) *)
-Fixpoint resp_struct (lvl : nat) (o : hopts) (fs : list fdesc) (vals : list (Z * tval)) : rexp :=
+Fixpoint resp_struct (q : bool) (lvl : nat) (o : hopts) (fs : list fdesc) (vals : list (Z * tval)) : rexp :=
   let present :=
     fold_left (fun acc p =>
       match find (fun f => f_id f =? fst p) fs with
@@ -416,14 +418,14 @@ Fixpoint resp_struct (lvl : nat) (o : hopts) (fs : list fdesc) (vals : list (Z *
            | TStruct gs, VStruct sub, [] =>
              match lvl with
              | S l' =>
-               let r := resp_struct l' o gs sub in
+               let r := resp_struct q l' o gs sub in
                mkRexp (re_err r) [f_name f] (re_deliv r) [(f_name f, re_names r)]
-             | _ => mkRexp (plain_chk 8 o (f_ty f) (snd p)) [f_name f] [] [(f_name f, struct_names gs sub o)]
+             | _ => mkRexp (plain_chk q 8 o (f_ty f) (snd p)) [f_name f] [] [(f_name f, struct_names q gs sub o)]
              end
            | _, _, _ =>
              (* with UseKitexHttpEncoding a mapped container is read by ReadAnyWithDesc, which checks no requiredness *)
-             let c := if o_kitex o && nonempty (f_anns f) && is_complex (f_ty f) then 0 else plain_chk 8 o (f_ty f) (snd p) in
-             if negb (c =? 0) then mkRexp c [] [] [] else resp_one o false f (snd p)
+             let c := if o_kitex o && nonempty (f_anns f) && is_complex (f_ty f) then 0 else plain_chk q 8 o (f_ty f) (snd p) in
+             if negb (c =? 0) then mkRexp c [] [] [] else resp_one q o false f (snd p)
            end)
       end) vals rexp_empty in
   let absent :=
@@ -432,10 +434,10 @@ Fixpoint resp_struct (lvl : nat) (o : hopts) (fs : list fdesc) (vals : list (Z *
       if f_req f =? R_OPTIONAL then acc else
       if (f_req f =? R_REQUIRED) && negb (o_wr o) then rexp_app acc (mkRexp 1 [] [] [])
       else if (f_req f =? R_DEFAULT) && negb (o_wd o) then acc
-      else rexp_app acc (resp_one o true f (zero_of (f_ty f)))) (sort_by_id fs) rexp_empty in
+      else rexp_app acc (resp_one q o true f (zero_of (f_ty f)))) (sort_by_id fs) rexp_empty in
   rexp_app present absent.
 
-Definition resp_model (o : hopts) (fs : list fdesc) (vals : list (Z * tval)) : rexp := resp_struct 1 o fs vals.
+Definition resp_model (q : bool) (o : hopts) (fs : list fdesc) (vals : list (Z * tval)) : rexp := resp_struct q 1 o fs vals.
 Definition FINDING_T2J_NIL_RESP := 1716.
 
 Fixpoint parse_names (n : nat) (fs : list field) : option (list (list Z * option (list (list Z))) * list field) :=
@@ -514,12 +516,17 @@ Definition check_1702 (fs : list field) : verdict :=
                    (expect 5 (deliv_same (re_deliv e) calls)
                       (flat_map (fun d => [FZ (fst (fst d)); FB (snd (fst d)); FB (match snd d with Some x => x | None => [63] end)]) (re_deliv e)))))
             in
-            match judge (resp_model o flds vals) with
-            | VBad c d => match judge (resp_model o (reorder_fields 8 flds) vals) with
-                          | VOk => VKnown FINDING_BODY_LAST
-                          | VKnown k => VKnown k
-                          | _ => VBad c d
-                          end
+            let flds' := reorder_fields 8 flds in
+            match judge (resp_model false o flds vals) with
+            | VBad c d =>
+              match judge (resp_model true o flds vals), judge (resp_model false o flds' vals), judge (resp_model true o flds' vals) with
+              | VOk, _, _ => VKnown FINDING_T2J_NIL_RESP      (* differs from the specification only by the plain-level quirk (names) *)
+              | VKnown k, _, _ => VKnown k
+              | _, VOk, _ => VKnown FINDING_BODY_LAST
+              | _, _, VOk => VKnown FINDING_BODY_LAST
+              | _, _, VKnown k => VKnown k
+              | _, _, _ => VBad c d
+              end
             | x => x
             end
           | _ => VSkip
@@ -530,5 +537,35 @@ Definition check_1702 (fs : list field) : verdict :=
       end
     | _ => VBad 96 []
     end
+  | _ => VBad 99 []
+  end.
+
+(* 1703: j2t.HTTPConv.Do. fields: EnableHttpMapping given in the options (HTTPConv.Do forces it on), body kind, method name, err class,
+   message bytes, err class and bytes of BinaryConv.Do (mapping enabled) on the same request.
+   The message must be header(name, CALL, seq 0, field 1) ++ the same struct ++ footer. *)
+Definition FINDING_HTTPCONV_FLAGS := 1718.
+Definition check_1703 (fs : list field) : verdict :=
+  match fs with
+  | [FZ enable; FZ bodykind; FB name; FZ ec; FB msg; FZ pec; FB plain] =>
+    if (ec =? 4) || (pec =? 4) then VSkip else      (* native faults are judged by 1701 *)
+    let dec (b : list Z) := match skip_go T_STRUCT b with Some [] => decode_all T_STRUCT b | _ => None end in
+    let same :=
+      if negb (pec =? 0) then negb (ec =? 0)
+      else (ec =? 0) &&
+           match unwrap msg with
+           | Some (n, ty, seq, id, body) =>
+             zlist_eqb n name && (ty =? 1) && (seq =? 0) && (id =? 1) &&
+             match dec body, dec plain with
+             | Some a, Some b => tval_eqb (canon a) (canon b)
+             | None, None => bytes_eqb body plain      (* malformed output of finding 1713: identical bytes *)
+             | _, _ => false
+             end
+           | None => false
+           end in
+    if same then VOk
+    (* with an empty body the root is mapped by Go code that reads cv.opts, but container-typed HTTP values still go through the native
+       converter with the stale flag word *)
+    else if enable =? 0 then VKnown FINDING_HTTPCONV_FLAGS
+    else VBad 1 []
   | _ => VBad 99 []
   end.
